@@ -14,10 +14,10 @@ Variable u2s : bytes -> bytes.
 Variable s2u : bytes -> bytes.
 Variable nvar : bytes -> option bytes.
 
-Lemma asm_bios_v_size fx elems len st es b st' : 0 <= len ->
-  asm_bios_v enc s2u fx elems len st = Ok (es, b, st') -> zlen b = len.
+Lemma asm_bios_size elems len st es b st' : 0 <= len ->
+  asm_bios enc s2u elems len st = Ok (es, b, st') -> zlen b = len.
 Proof.
-  intros Hl H. unfold asm_bios_v in H.
+  intros Hl H. unfold asm_bios in H.
   apply bind_ok in H as ([es1 st1] & He & H).
   destruct (first_fv es1); [|discriminate].
   destruct (set_polarity (fst st1) (fv_polarity (v_attrs v))); [|discriminate].
@@ -26,24 +26,24 @@ Proof.
 Qed.
 
 (* the image that is written has the size of the image that was read *)
-Lemma edit_and_save_size fx d ops img out :
-  edit_and_save dec enc u2s s2u nvar fx d ops img = Ok out -> zlen out = zlen img.
+Lemma edit_and_save_size d ops img out :
+  edit_and_save dec enc u2s s2u nvar d ops img = Ok out -> zlen out = zlen img.
 Proof.
-  unfold edit_and_save. intros H.
+  unfold edit_and_save, edit_and_save_gen. intros H.
   apply bind_ok in H as ([cops pol0] & _ & H).
   apply bind_ok in H as ([elems pol] & _ & H).
   apply bind_ok in H as (elems' & _ & H).
   apply bind_ok in H as ([[es b] st'] & Ha & H). inversion H; subst.
-  eapply asm_bios_v_size; [apply zlen_nonneg | exact Ha].
+  eapply asm_bios_size; [apply zlen_nonneg | exact Ha].
 Qed.
 
 (* an operation that fails stops the run: save is not reached, nothing is written *)
-Lemma edit_error_no_output fx d ops img cops pol0 elems pol e :
+Lemma edit_error_no_output d ops img cops pol0 elems pol e :
   parse_cli dec u2s nvar d 240 ops = Ok (cops, pol0) ->
   parse_bios dec u2s nvar d (Z.to_nat (zlen img) + 1) pol0 img 0 = Ok (elems, pol) ->
   run_ops d pol cops elems = Err e ->
-  edit_and_save dec enc u2s s2u nvar fx d ops img = Err e.
-Proof. intros H1 H2 H3. unfold edit_and_save. rewrite H1. cbn [bind]. rewrite H2. cbn [bind]. rewrite H3. reflexivity. Qed.
+  edit_and_save dec enc u2s s2u nvar d ops img = Err e.
+Proof. intros H1 H2 H3. unfold edit_and_save, edit_and_save_gen. rewrite H1. cbn [bind]. rewrite H2. cbn [bind]. rewrite H3. reflexivity. Qed.
 
 End Size.
 
@@ -600,16 +600,16 @@ Proof.
 Qed.
 
 (* the reader accepts the file area of a rebuilt non-resizable volume *)
-Lemma asm_vol_files_valid vfv fx pol ffs3 h buf files h' b :
-  asm_vol_v fx pol ffs3 h buf files = Ok (h', b) ->
-  vol_verbatim fx h files = false -> v_resizable h = false ->
+Lemma asm_vol_files_valid vfv pol ffs3 h buf files h' b :
+  asm_vol pol ffs3 h buf files = Ok (h', b) ->
+  vol_verbatim h files = false -> v_resizable h = false ->
   60 <= v_dataoff h -> v_dataoff h mod 8 = 0 -> (pol = 0 \/ pol = 255) -> v_length h < 2 ^ 64 ->
   Forall (fun f => fok vfv pol (node_buf f) = true /\ rd 19 1 (node_buf f) = node_attr f) files ->
   forall fuel, (2 * length files < fuel)%nat -> v_files vfv fuel pol b (v_dataoff h) = true.
 Proof.
   intros H Hv Hr Hd Hm Hpol Hlen Hok fuel Hfuel.
-  destruct (asm_vol_v_len _ _ _ _ _ _ _ _ H Hv Hr) as [Lb _].
-  destruct (asm_vol_v_inv _ _ _ _ _ _ _ _ H Hv Hr)
+  destruct (asm_vol_v_len _ _ _ _ _ _ _ H Hv Hr) as [Lb _].
+  destruct (asm_vol_v_inv _ _ _ _ _ _ _ H Hv Hr)
     as (hdr & b1 & c & s & rest & hb & Hs & Hp & Hl & Hdo & He & Hb & Hz).
   cbv zeta in Hz. destruct Hz as (L60 & L4 & Hsl & Eb & _ & _).
   apply slice_len in Hs as (Lh & _ & _). rewrite Z.sub_0_r in Lh.
@@ -697,13 +697,13 @@ Proof.
 Qed.
 
 (* asm_vol: the 16-bit sum of the header of a rebuilt volume is zero *)
-Lemma asm_vol_hdr_cksum fx pol ffs3 h buf files h' b :
-  asm_vol_v fx pol ffs3 h buf files = Ok (h', b) ->
-  vol_verbatim fx h files = false -> v_resizable h = false -> 52 <= v_hdrlen h ->
+Lemma asm_vol_hdr_cksum pol ffs3 h buf files h' b :
+  asm_vol pol ffs3 h buf files = Ok (h', b) ->
+  vol_verbatim h files = false -> v_resizable h = false -> 52 <= v_hdrlen h ->
   sum16 (sub 0 (v_hdrlen h) b) = 0.
 Proof.
   intros H Hv Hr H52.
-  destruct (asm_vol_v_inv _ _ _ _ _ _ _ _ H Hv Hr)
+  destruct (asm_vol_v_inv _ _ _ _ _ _ _ H Hv Hr)
     as (hdr & b1 & c & s & rest & hb & Hs & Hp & Hl & Hdo & He & Hb & Hz).
   cbv zeta in Hz. destruct Hz as (L60 & L4 & Hsl & Eb & _ & _).
   set (b2 := if zlen b1 <? v_length h then b1 ++ zrepeat pol (v_length h - zlen b1) else b1) in *.
@@ -738,17 +738,17 @@ Proof.
 Qed.
 
 (* asm_fv_nospace at the volume: a file that would end beyond Length makes the rebuild fail *)
-Lemma asm_vol_v_nospace fx pol ffs3 h buf files :
-  vol_verbatim fx h files = false -> v_resizable h = false -> 0 <= v_dataoff h ->
+Lemma asm_vol_v_nospace pol ffs3 h buf files :
+  vol_verbatim h files = false -> v_resizable h = false -> 0 <= v_dataoff h ->
   (exists k f s, nth_error files k = Some f /\ nth_error (file_starts (v_dataoff h) files) k = Some s /\
                  v_length h < s + zlen (node_buf f)) ->
-  is_ok (asm_vol_v fx pol ffs3 h buf files) = false.
+  is_ok (asm_vol pol ffs3 h buf files) = false.
 Proof.
-  intros Hv Hr Hd Hex. unfold asm_vol_v. rewrite Hv, Hr.
+  intros Hv Hr Hd Hex. unfold asm_vol. fold (vol_verbatim h files). rewrite Hv, Hr.
   destruct (v_length h <? zlen buf); [reflexivity|].
   destruct (v_blocks h) as [|[c s] rest]; [reflexivity|].
   destruct (v_dataoff h <? v_hdrlen h); [reflexivity|].
-  destruct (fx && (zlen buf <? v_dataoff h)); [reflexivity|].
+  destruct (zlen buf <? v_dataoff h); [reflexivity|].
   destruct (slice 0 (v_dataoff h) buf) as [hdr|] eqn:Es; [|reflexivity]. cbn [of_opt bind].
   apply slice_len in Es as (Lh & _ & _). rewrite Z.sub_0_r in Lh.
   pose proof (place_files_nospace pol (v_length h) files hdr (v_dataoff h) Lh Hd Hex) as Hn.
@@ -756,9 +756,9 @@ Proof.
 Qed.
 
 (* the volume-assembly core of C02 in one statement *)
-Lemma asm_vol_valid_core vfv fx pol ffs3 h buf files h' b :
-  asm_vol_v fx pol ffs3 h buf files = Ok (h', b) ->
-  vol_verbatim fx h files = false -> v_resizable h = false ->
+Lemma asm_vol_valid_core vfv pol ffs3 h buf files h' b :
+  asm_vol pol ffs3 h buf files = Ok (h', b) ->
+  vol_verbatim h files = false -> v_resizable h = false ->
   60 <= v_dataoff h -> v_dataoff h mod 8 = 0 -> 52 <= v_hdrlen h ->
   (pol = 0 \/ pol = 255) -> v_length h < 2 ^ 64 ->
   Forall (fun f => fok vfv pol (node_buf f) = true /\ rd 19 1 (node_buf f) = node_attr f) files ->
@@ -767,7 +767,7 @@ Lemma asm_vol_valid_core vfv fx pol ffs3 h buf files h' b :
   forall fuel, (2 * length files < fuel)%nat -> v_files vfv fuel pol b (v_dataoff h) = true.
 Proof.
   intros H Hv Hr Hd Hm H52 Hp Hl Hok.
-  destruct (asm_vol_v_len _ _ _ _ _ _ _ _ H Hv Hr) as [L1 L2].
+  destruct (asm_vol_v_len _ _ _ _ _ _ _ H Hv Hr) as [L1 L2].
   repeat split; auto.
   - eapply asm_vol_hdr_cksum; eauto.
   - eapply asm_vol_files_valid; eauto.
